@@ -7,6 +7,7 @@ from unittest import mock
 from props import shellcommon as sc
 from sim.scenarios import Pair, HANDSHAKE
 from sim.world import LoopEscape, conf_pair
+from props import hdl
 from vlib import core
 from vlib.core import Failure
 
@@ -220,7 +221,7 @@ def correspond(ctx):
         fails.append(Failure('correspondence', 'auth:model-vs-code',
                              f'{name} ({role}): implementation continue={cases[gi][1]} / model {model_out[-200:]}',
                              {'situation': name, 'seed': seed}))
-    return fails
+    return fails + hdl.tie(ctx)
 
 
 def prf_of(name):
@@ -554,7 +555,7 @@ CHECK = core.Check(
          'the 3 PRFs and RSA, runs the situations with the real PRF, and rewrites either IKE_SA_INIT message in flight in '
          '14 ways (nonce/KE/SPI substitution, proposal downgrade and reordering, payload insertion/removal/reordering, '
          'reserved and critical bits, unknown payload); every case is non-trivial',
-    trusted_base=sc.TRUSTED + ['the PRF and RSA verification are Section variables of the theorems; unforgeability is '
+    trusted_base=sc.TRUSTED + hdl.TRUSTED + ['the PRF and RSA verification are Section variables of the theorems; unforgeability is '
                                'assumed, not proved: the theorems state the exact acceptance condition'],
     assumptions=['"meaning" of an IKE_SA_INIT message = SPIs, proposals (protocol and transforms), KE group and data, '
                  'nonce; the responder authenticates the re-serialisation of what it parsed (finding F10, observation): '
